@@ -920,6 +920,10 @@ class Engine:
                  self.eval(e.step, env) if e.step else None)
 
   def subscript(self, obj, idx, lineno=None):
+    if isinstance(obj, SymSeq) and type(obj) is not SymSeq and isinstance(idx, tuple):
+      h = self.libspec.get(('subscript', type(obj).__name__))     # specialised vectors (e.g. index vectors broadcast to matrices)
+      if h:
+        return h[1](self, obj, idx)
     if isinstance(obj, SymSeq):
       if isinstance(idx, slice):
         if idx.step is not None:
